@@ -112,8 +112,10 @@ def location(project, source, position, filename=None, debug=False):
     def name_loc(name):
         loc = name.declared_at
         # names of the marked source declared on the cursor line after the
-        # cursor are shifted by the mark
-        if (name.filename == source.filename and loc[0] == position[0]
+        # cursor are shifted by the mark (the same file reached through an
+        # import is parsed without the mark)
+        top = getattr(getattr(name, 'scope', None), 'top', None)
+        if (top is scope and loc[0] == position[0]
                 and loc[1] > position[1]):
             loc = loc[0], loc[1] - len(SOURCE_MARK)
         return _loc(loc, name.filename)
